@@ -254,6 +254,19 @@ class Type1Tag(Tag):
                     tag_memory[offset] = 0xFE
                     break
                 offset += 1
+            if len(data) >= 255:
+                # The final update of a three byte length field must not
+                # leave an intermediate state with 0xFF followed by stale
+                # bytes if it crosses a block boundary. A second length
+                # value byte alone in the next block is written now (it
+                # is ignored while the first length byte is zero). If both
+                # value bytes are in the next block they are set to zero,
+                # the final update then goes through a length of zero.
+                offset = self._ndef_tlv_offset
+                if (offset + 2) >> 3 != (offset + 1) >> 3:
+                    tag_memory[offset+2:offset+4] = b"\x00\x00"
+                elif (offset + 3) >> 3 != (offset + 1) >> 3:
+                    tag_memory[offset+3] = len(data) & 0xFF
             # Write the new message data to the tag.
             tag_memory.synchronize()
 
